@@ -148,6 +148,49 @@ def step (s : DState) (toks : List String) : DState × String :=
       match splitBar rest with
       | [_, a, b] => (s, toString (allclose (hexs a) (hexs b)))
       | _ => (s, "bad-op")
+  -- ---------------- C09 / C10 / C11 element-wise formulas
+  | "clos" :: kind :: hc :: sg :: rest =>
+      match splitBar rest with
+      | [_, r, g, u] =>
+          let kd : CKind := if kind = "py" then .py else if kind = "hnc" then .hnc else if kind = "msa" then .msa
+            else if kind = "ms" then .ms else if kind = "msA" then .msA else .msB
+          (s, fl (closureArr kd (hc = "1") (hexToFloat sg) (hexs r) (hexs g) (hexs u)).toList)
+      | _ => (s, "bad-op")
+  | "pot" :: name :: rest =>
+      match splitBar rest with
+      | [ps, r] =>
+          let p := hexs ps; let r := hexs r
+          let f : Float → Float :=
+            if name = "hs" then hardSphere p[0]! p[1]!
+            else if name = "exp" then exponentialPot p[0]! p[1]! p[2]! p[3]!
+            else if name = "lj" then lennardJones p[0]! p[1]! none false
+            else if name = "ljcut" then lennardJones p[0]! p[1]! (some p[2]!) false
+            else if name = "ljshift" then lennardJones p[0]! p[1]! (some p[2]!) true
+            else if name = "hclj" then hcLennardJones p[0]! p[1]! p[2]!
+            else wca p[0]! p[1]!
+          (s, fl (r.map f).toList)
+      | _ => (s, "bad-op")
+  | "om" :: name :: N :: rest =>
+      match splitBar rest with
+      | [ps, k] =>
+          let p := hexs ps; let k := hexs k; let N := N.toNat!
+          let f : Float → Float :=
+            if name = "gauss" then omegaGaussian p[0]! N
+            else if name = "gauss.sum" then fun k => chainPairSum N (gaussianE p[0]! k)
+            else if name = "fjc" then omegaFJC p[0]! N
+            else if name = "fjc.sum" then fun k => chainPairSum N (fjcE p[0]! k)
+            else if name = "ring" then omegaRing p[0]! N
+            else if name = "ring.sum" then ringPairSum p[0]! N
+            else if name = "single" then omegaSingleSite
+            else omegaNoIntra
+          (s, fl (k.map f).toList)
+      | [_, bs, as, k] =>
+          let B := hexs bs; let A := hexs as; let k := hexs k; let N := N.toNat!
+          let f : Float → Float :=
+            if name = "koyama" then omegaKoyama N (fun t => B[t-1]!) (fun t => A[t-1]!)
+            else omegaKoyamaShipped N (fun t => B[t-1]!) (fun t => A[t-1]!)
+          (s, fl (k.map f).toList)
+      | _ => (s, "bad-op")
   | _ => (s, "bad-op")
 
 partial def loop (h : IO.FS.Stream) (out : IO.FS.Stream) (s : DState) : IO Unit := do
